@@ -208,6 +208,29 @@ CLAIMS = {
         tech="static analysis: regex-AST classification of atoms (one character vs one byte, re-alignable or not) over the generated pattern table; exception-handler coverage against the introspected library hierarchy; def-use of the cache key",
         ref="DESIGN.md section 2/C14",
     ),
+    "C01": dict(
+        cat="other",
+        text="Only the plumbing without which no input can satisfy C01 is decided: token-kind dispatch exhaustive/exclusive against the classes "
+        "the generated extractors construct; source-tag table agreement; every m[g] / groups() unpack / token.groups[key] read against the "
+        "linked pattern (all ~6,800 generated patterns for token.groups); every metadata field store / key against the declared Metadata "
+        "dataclass of the static class; short/full pattern pairing; forward/backward scan agreement in match_on_tokens; current citation "
+        "appended last (parallel-cite detection).",
+        note="NOT decided (the bulk of C01): that each of the ~3,900 reporter strings is matched with the right span and group contents, that "
+        "the metadata regexes capture the written components, span arithmetic -- which strings a regex matches and integer values.",
+        tech="static analysis: writer/reader table agreement across modules and across languages (Python <-> regex syntax trees), typed field-existence check, sibling-branch agreement",
+        ref="DESIGN.md section 2/C01",
+    ),
+    "C02": dict(
+        cat="other",
+        text="Decided: slice-origin rebasing at every site where a regex runs on a slice (and the scanned string is the untransformed slice); "
+        "token text/offset agreement and group-1 participation in all generated patterns; fallback / min-max structure of the three span "
+        "accessors; sign analysis of every span override (end = base end + non-negative amount, start = base start - non-negative amount) "
+        "including infeasibility of extract_pin_cite's None end (its pattern is nullable).",
+        note="Not decided: that offsets computed from match positions and summed word lengths land on the right characters for every text "
+        "(value-level), the party-name length estimate in add_defendant, markup-mode round trips (diff).",
+        tech="static analysis: linear-form sign analysis over def-use chains with a small non-negativity grammar, regex nullability / group participation on syntax trees, rebasing-sibling agreement",
+        ref="DESIGN.md section 2/C02",
+    ),
 }
 
 NA = {
